@@ -686,8 +686,13 @@ impl ProgGen {
                 }
             }
             12 => {
-                let s = *self.rng.pick(INTERP);
-                self.t(s);
+                if self.rng.chance(1, 2) {
+                    let s = *self.rng.pick(INTERP);
+                    self.t(s);
+                } else {
+                    let s = self.interpolated(1);
+                    self.t(&s);
+                }
             }
             _ => self.string(),
         }
@@ -815,6 +820,15 @@ impl ProgGen {
         self.t("end");
     }
     pub fn expr(&mut self, depth: u32, vararg: bool) {
+        if self.typed && !self.in_temp && self.rng.chance(1, 12) {
+            // a cast (parenthesised: it then composes with every operator)
+            self.t("(");
+            self.prefix(depth.saturating_sub(1), vararg, 0);
+            self.t("::");
+            self.type_annotation(1);
+            self.t(")");
+            return;
+        }
         if depth == 0 || self.budget <= 0 {
             return self.atom(vararg);
         }
@@ -909,11 +923,185 @@ impl ProgGen {
             self.statement(depth, false, false);
         }
     }
+    /// An interpolated string built compositionally (one token of the stream): literal parts
+    /// drawn from a pool of spellings — among them parts whose spelling is not empty but whose
+    /// VALUE is (`\z` + whitespace only), escapes, backslash-newline, non-ASCII — alternating
+    /// with `{ expr }` values that carry whitespace, line breaks and comments inside the braces;
+    /// every position (before the first value, between two values, after the last, the whole
+    /// string) can receive every kind of part.
+    pub fn interpolated(&mut self, depth: u32) -> String {
+        const PARTS: &[&str] = &[
+            "", "", "a", "text ", " ", "\\z  ", "\\z\n    ", "\\z\t", "\\z\r\n", "\\z \n x", "x\\z  ",
+            "\\\n", "\\{", "\\u{48}", "\\n", "é日", "\\`", "1", "--not a comment", "]]", "\\x41", "\\065",
+        ];
+        const INNER_WS: &[&str] = &["", "", " ", "\n", "\n   ", " \t", "\r\n  ", " --[[c]] ", "\n-- c\n  "];
+        let values = self.rng.below(4);
+        let mut text = String::from("`");
+        for i in 0..=values {
+            let part = *self.rng.pick(PARTS);
+            text.push_str(part);
+            if i == values {
+                break;
+            }
+            let saved = std::mem::take(&mut self.toks);
+            let was_temp = std::mem::replace(&mut self.in_temp, true);
+            if depth > 0 && self.rng.chance(1, 3) {
+                self.prefix(depth - 1, false, 0);
+            } else {
+                self.atom(false);
+            }
+            self.in_temp = was_temp;
+            let inner_toks = std::mem::replace(&mut self.toks, saved);
+            let mut inner = String::new();
+            for (k, t) in inner_toks.iter().enumerate() {
+                if k > 0 && (lexically_glued(&inner_toks[k - 1], t) || self.rng.chance(1, 2)) {
+                    inner.push(' ');
+                }
+                inner.push_str(t);
+            }
+            text.push('{');
+            let before = *self.rng.pick(INNER_WS);
+            // `{{` is not allowed; a comment must not swallow the value
+            if inner.starts_with('{') && before.is_empty() {
+                text.push(' ');
+            }
+            text.push_str(before);
+            text.push_str(&inner);
+            let after = *self.rng.pick(INNER_WS);
+            if inner.ends_with('-') && after.trim_start().starts_with("--") {
+                text.push(' ');
+            }
+            text.push_str(after);
+            text.push('}');
+        }
+        text.push('`');
+        text
+    }
+
+    /// Two statements in a row, without `;` between them: the first ends with an expression that
+    /// is not a prefix expression (a literal — `1e999` among them —, a table, a function, a
+    /// cast in typed mode), the second STARTS WITH A PARENTHESE. This is the only shape in which
+    /// `write_block_with_tokens` has to decide whether a `;` must be written.
+    fn paren_pair(&mut self, depth: u32, vararg: bool) {
+        let e = depth.min(2);
+        if !self.in_temp {
+            self.stmt_starts.push(self.toks.len());
+        }
+        match self.rng.below(4) {
+            0 => {
+                self.t("local");
+                self.local_name();
+                self.opt_type();
+                self.t("=");
+            }
+            1 => {
+                self.prefix(e, vararg, 2);
+                self.t("=");
+            }
+            2 => {
+                self.prefix(e, vararg, 2);
+                let op = *self.rng.pick(&["+=", "-=", "..="]);
+                self.t(op);
+            }
+            _ => {
+                self.t("local");
+                self.local_name();
+                self.t(",");
+                self.local_name();
+                self.t("=");
+                self.prefix(e, vararg, 1);
+                self.t(",");
+            }
+        }
+        // the ender: never a prefix expression
+        let cast = self.typed && self.rng.chance(1, 2);
+        if cast {
+            match self.rng.below(4) {
+                0 => self.name(),
+                1 => self.prefix(e, vararg, 0),
+                2 => {
+                    self.t("-");
+                    self.name();
+                }
+                _ => {
+                    self.name();
+                    self.t("+");
+                    self.prefix(e, vararg, 1);
+                }
+            }
+            self.t("::");
+            self.type_annotation(1);
+        } else {
+            match self.rng.below(9) {
+                0 => self.t("1e999"),
+                1 => self.t("-1e309"),
+                2 => self.number(),
+                3 => self.string(),
+                4 => self.table(e, vararg),
+                5 => {
+                    self.t("function");
+                    self.function_body(depth.saturating_sub(1));
+                }
+                6 => {
+                    let word = *self.rng.pick(&["nil", "true", "false"]);
+                    self.t(word);
+                }
+                7 => {
+                    let s = if self.markers { "`x`".to_owned() } else { self.interpolated(0) };
+                    self.t(&s);
+                }
+                _ => {
+                    self.t("not");
+                    self.number();
+                }
+            }
+        }
+        // the statement that starts with a parenthese
+        if !self.in_temp {
+            self.stmt_starts.push(self.toks.len());
+        }
+        self.t("(");
+        if self.typed && self.rng.chance(1, 3) {
+            self.name();
+            self.t("::");
+            self.type_annotation(1);
+        } else {
+            self.expr(e.min(1), vararg);
+        }
+        self.t(")");
+        match self.rng.below(4) {
+            0 => {
+                self.t(".");
+                self.local_name();
+                self.t("=");
+                self.expr(e, vararg);
+            }
+            1 => {
+                self.t(":");
+                self.local_name();
+                self.args(e, vararg);
+            }
+            _ => {
+                self.args(e, vararg);
+                if self.rng.chance(1, 3) {
+                    self.suffix(e, vararg, 2);
+                }
+            }
+        }
+    }
+
     pub fn block(&mut self, depth: u32, in_loop: bool, vararg: bool) {
         let n = if depth == 0 { self.rng.below(2) } else { self.rng.below(4) };
         for _ in 0..n {
             if self.budget <= 0 {
                 break;
+            }
+            if self.rng.chance(1, 8) {
+                self.paren_pair(depth, vararg);
+                if self.rng.chance(1, 5) {
+                    self.t(";");
+                }
+                continue;
             }
             self.statement(depth, in_loop, vararg);
             if self.rng.chance(1, 5) {
@@ -1761,6 +1949,9 @@ fn replay_known_findings(report: &mut Report) {
 
 /// Hand-written sources: every statement kind and literal spelling at least once.
 pub const FIXED_SOURCES: &[&str] = &[
+    "local m = `{a}\\z\n    {b}` .. `\\z  {a}` .. `{a}\\z\t` .. `\\z ` .. `{a}\\z  {b}\\z\r\n{c}x\\z  `",
+    "local i = `{ a\n   }` .. `{\n  b --[[c]]\n\t}x{ --[[d]] c }` .. `{ {1} }`",
+    "local a = 1e999\n(f)()\nlocal b = 'x'\n(g).h = 1\nlocal c = {}\n(c):m()\nx = function() end\n(x)()\ny = nil\n(y or z)()",
     "",
     "\n",
     "-- only a comment",
@@ -1792,6 +1983,7 @@ pub const FIXED_SOURCES: &[&str] = &[
 ];
 
 const TYPED_SOURCES: &[&str] = &[
+    "local object = value :: Object\n(object.run)(object)\nx = a.b :: T\n(x :: any)()\ny += f() :: number\n(y)()",
     "local a: number = 1\nlocal b : string? = nil\nreturn a :: any",
     "type T = { x: number, y: string } | nil\nexport type U<V> = (V) -> V\nlocal function f<T>(a: T, ...: number): T return a end",
     "local f: (number, string) -> ...any = g\ntype A = typeof(x) & { [string]: number }",
